@@ -613,6 +613,52 @@ func init() {
 					behaviourOracle(c, outs, err)
 				})
 			}
+			// (8) a name that is not registered is an unknown function, however close it is to a registered one (longer,
+			// shorter, other case); every registered name is accepted
+			w.Case("function-names-near-registered", func(c *C) {
+				registered := []string{"env", "envInt", "todo", "fnStr", "fnInt", "up", "upper", "upperFirst"}
+				var names []string
+				for _, r := range registered {
+					names = append(names, r, r+"x", r+"Int", r+"_", r+"1", r[:len(r)-1], strings.ToLower(r), strings.ToUpper(r), strings.ToUpper(r[:1])+r[1:], "x"+r)
+				}
+				isReg := map[string]bool{}
+				for _, r := range registered {
+					isReg[r] = true
+				}
+				seen := map[string]bool{}
+				for _, n := range names {
+					if seen[n] || !IsGoToken(n) {
+						continue
+					}
+					seen[n] = true
+					cfg := &Cfg{Meta: stdMeta(), Params: []Param{{"x", "%" + n + `("A", 1)%`}}}
+					cfg.Meta.Functions = append(cfg.Meta.Functions, KV{"up", "pk.FnStr"}, KV{"upper", "pk2.FnStr"}, KV{"upperFirst", "pk.FnInt"})
+					files := []File{{"c.yaml", cfg.YAML()}}
+					br := w.Build(files)
+					c.Distinct("all", "fname:"+n)
+					c.Distinct("nontrivial", "fname:"+n)
+					c.Count("evaluations_extra")
+					switch {
+					case br.Panic != "":
+						c.Violation("panic", "tool panicked on function name "+n+":\n"+br.Panic, FilesMap(files), nil)
+					case isReg[n] && br.Exit != 0:
+						c.Violation("registered-function-rejected:"+n, "the registered function "+n+" is rejected:\n"+strings.Join(ErrorLines(br.Out), "\n"), FilesMap(files), nil)
+					case !isReg[n] && br.Exit == 0:
+						c.Violation("unknown-function-accepted", "%"+n+"(...)% is not a registered function (registered: "+strings.Join(registered, ", ")+") but the configuration was accepted", FilesMap(files), nil)
+					}
+				}
+			})
+			// (7) values that a block-style YAML file writes as literal block scalars (lines beginning with tabs or blanks,
+			// blank lines, patterns spread over lines): the generated file is the same as for the quoted one-line spelling
+			w.Case("yaml-presentation/block-scalars", func(c *C) {
+				cfg := &Cfg{Meta: stdMeta(), Params: []Param{{"p", "referenced"}}}
+				for i, v := range []string{"\tindented", "a\n\tb", "rule:\n\tcmd one\n\tcmd two", "  two blanks first\n one", "x\n\n\ny", "100%% of %p%\n\tnext line %p%", "col1\tcol2\nv1\tv2", "ends with a line feed\n", "\n starts with a line feed", "trailing blanks  \nand\ttabs\t"} {
+					cfg.Params = append(cfg.Params, Param{fmt.Sprintf("b%d", i), v})
+					cfg.Services = append(cfg.Services, Service{Name: fmt.Sprintf("s%d", i), Constructor: P("pk.New"), Args: []any{v}, Fields: []KV{{"F1", v}}})
+				}
+				c.Distinct("all", c.ID)
+				w.ShapeInvarianceOK(c, c.ID, []File{{"c.yaml", cfg.YAML()}}, true)
+			})
 			// (6) how the registered function names its package: alias, alias/sub-path, quoted, unquoted, paths with dots and dashes
 			w.Case("function-import-forms", func(c *C) {
 				cfg := &Cfg{Meta: &Meta{Pkg: P("gen"), Imports: []KV{{"pk", "fx/pk"}, {"fxroot", "fx"}, {"dotted.alias", "fx/p-k.g"}}}}
